@@ -45,6 +45,8 @@ mixed mkff (int w) {
   case 0: return (: $1 :);
   case 1: return mkff_base (0);
   case 2: return function (mixed x) { return x; };
+  case 4: return (: x0 :);                                  // uses a global: not bindable (a flag bit in hdr.type)
+  case 5: return function (mixed x) { return ({ x, x1 }); };
   }
   return mkff_base (1);
 }
